@@ -693,6 +693,49 @@ pub fn run(prop: &str, tier: &str, replay: Option<&str>) -> i32 {
             out
         });
         rep.add(sec);
+        {
+            // ... and under issuers whose own certificate is itself constrained (a path length, usages, name constraints, no CA
+            // flag): whatever the issuer says about itself, the call leaves the subject's parameters and the issuer as they were
+            let ctxs = super::certfam::constrained_issuer_ctxs();
+            let roles = super::certfam::constrained_subject_roles();
+            let cases: Vec<(usize, usize, u8)> = (0..ctxs.len()).flat_map(|c| (0..roles.len()).flat_map(move |i| (0..2u8).map(move |k| (c, i, k)))).collect();
+            let sec = Section::new("purity/cert under constrained issuers", "6 issuers whose own certificates carry a path length (0, 1, 2, 5), usages + name constraints, or no CA flag x 15 CA flag / path length values of the subject x {plain, with usages + names + AKI + name constraints}: returned parameters equal the input, the issuer certificate is unchanged, a second call gives the same bytes");
+            run::sweep_cases(&sec, &cases, &|c| format!("{} / subject {:?} / kind {}", ctxs[c.0].0, roles[c.1], c.2), &|c| {
+                let mut out = Outcome::default();
+                let mut st = CertState::default();
+                st.is_ca = roles[c.1];
+                st.serial = Some(vec![0x15]);
+                if c.2 == 1 {
+                    st.key_usages = vec![0, 5, 6];
+                    st.ekus = vec![EkuSpec::ServerAuth];
+                    st.sans = vec![SanSpec::Dns("elsewhere.example".into())];
+                    st.use_aki = true;
+                    if !matches!(st.is_ca, IsCaSpec::NoCa | IsCaSpec::ExplicitNoCa) {
+                        st.nc = Some(NcSpec { permitted: vec![SubtreeSpec::Dns("other.example".into())], excluded: vec![] });
+                    }
+                }
+                let mut first: Option<Vec<u8>> = None;
+                for _ in 0..2 {
+                    let ev = eval_cert(&st, &ctxs[c.0].1);
+                    out.transitions += ev.transitions;
+                    if ev.unconstructible.is_some() || ev.panic.is_some() || ev.err.is_some() {
+                        continue;
+                    }
+                    out.findings.extend(ev.findings.into_iter().filter(|f| f.rule.starts_with("PURITY-")));
+                    match (&first, ev.tbs) {
+                        (None, Some(t)) => {
+                            out.digest = fnv(&t);
+                            first = Some(t);
+                        }
+                        (Some(f), Some(t)) if *f != t => out.findings.push(Finding::new("REPEAT-DIFFERENT-OUTPUT", "tbsCertificate", "generating the same state again under the same issuer gave different to-be-signed bytes")),
+                        _ => {}
+                    }
+                }
+                out.findings.dedup_by(|a, b| a.sig() == b.sig());
+                out
+            });
+            rep.add(sec);
+        }
         // CSR and CRL purity + repetition
         let cs = super::c07::csr_space(false);
         let raw = fake_pub(Alg::Ed25519, 3);
